@@ -1,4 +1,5 @@
 import Capella.Lemmas.XmlRoundTrip
+import Capella.Lemmas.XmlCanon
 import Capella.Lemmas.XmlLayout
 import Capella.Gen.Exs
 
@@ -98,13 +99,19 @@ theorem ser_idempotent (ll : Nat) (d : Doc) (hwf : wfDoc d = true) (hc : canonDo
       some (serialize ll true [] true d) := by
   rw [parse_ser_canonical ll d hwf hc]; rfl
 
-/-- The full fixpoint statement, for documents whose attributes or namespace declarations are
-*not* in file order (possible in memory after edits).  Not proved here; it is evaluated on every
-generated tree by the correspondence run (`canon_same_bytes`). -/
-def ser_idempotent_full : Prop :=
-  ∀ (ll : Nat) (d : Doc), wfDoc d = true →
+/-- The writer is a function of the information in the tree: writing the document in file order
+gives the same bytes as writing the in-memory document (whose attributes and namespace
+declarations may be in any order). -/
+theorem ser_canon (ll : Nat) (d : Doc) (hwf : wfDoc d = true) :
+    serialize ll true [] true (canonDoc d) = serialize ll true [] true d :=
+  serialize_canon ll true d hwf
+
+/-- **Write–parse–write is a fixpoint for every Capella-shaped tree** and every line length —
+"writing a tree, parsing the result and writing again gives the same bytes". -/
+theorem ser_idempotent_full (ll : Nat) (d : Doc) (hwf : wfDoc d = true) :
     (parse (serialize ll true [] true d)).map (serialize ll true [] true) =
-      some (serialize ll true [] true d)
+      some (serialize ll true [] true d) := by
+  rw [parse_ser ll d hwf, Option.map_some, ser_canon ll d hwf]
 
 /-- **`wrap_spec`, part 1 — the counter is the column.**  The `pos` the attribute loop carries is
 the real column of what it has written (no written name or value contains a line break —
